@@ -486,6 +486,10 @@ def main(argv=None):
             from harness import factory_common
 
             return factory_common.replay(ctx, data)
+        if isinstance(data, dict) and data.get("op") == "derived-input":
+            from harness import derived
+
+            return derived.replay(data)
         if isinstance(data, dict) and data.get("op") == "state-carry":
             from harness import statecarry
 
@@ -504,6 +508,10 @@ def main(argv=None):
 
         stateless_screen(ctx, pid)
         statecarry.run_for(ctx, pid)
+        # derived inputs: the operations of this property on ==-equal triangles as other public operations hand them out
+        from harness import derived
+
+        derived.metamorphic(ctx, pid, derived.sample_triangles(ctx.seed, 6 if ctx.quick else 30))
     except Exception as ex:  # machinery failure is reported, never silently passed
         import traceback
 
